@@ -1419,3 +1419,5 @@ case("c04-trigger-only-last-upstream", "C04", "mutant", [(H + "complete_stage/ha
 case("c09-sweep-string-compare", "C09", "mutant", [("src/stabilize/persistence/sqlite/operations.py", "WHERE datetime(processed_at) < datetime(:cutoff)", "WHERE processed_at < :cutoff")], "C09.R5")
 case("c02-merge-reads-end-time", "C02", "mutant", [("src/stabilize/persistence/sqlite/queries.py", "        SELECT ref_id, requisite_stage_ref_ids, outputs\n", "        SELECT ref_id, requisite_stage_ref_ids, outputs, end_time\n")], "C02.R6")
 case("c02-jump-leaves-redirect-task", "C02", "mutant", [(H + "jump_to_stage/reset.py", "        if task.status in (WorkflowStatus.RUNNING, WorkflowStatus.REDIRECT):", "        if task.status == WorkflowStatus.RUNNING:")], "C02.R7")
+case("c08-poll-raw-deliver-at", "C08", "mutant", [("src/stabilize/queue/sqlite/queue.py", "datetime(deliver_at) <= datetime('now', 'utc')", "deliver_at <= datetime('now', 'utc')")], "C08.R1")
+case("c10-starttask-while-task-running", "C10", "mutant", [("src/stabilize/recovery.py", "                elif not_started_tasks and not self._before_stages_complete(stage, full_workflow):", "                if not_started_tasks and not self._before_stages_complete(stage, full_workflow):")], None)
